@@ -141,6 +141,17 @@ def rule_route(ctx):
                 for a in s.body:
                     if isinstance(a, (ast.Assign, ast.AugAssign)) and "len(" in ast.unparse(a):
                         norm = True
+        if norm:
+            # the conversion must use the length *before* the deletion
+            cfg = build_cfg(p, fi)
+            dels = [n.id for n in cfg.nodes if n.ast is not None and n.kind == "stmt" and any(
+                isinstance(c, ast.Call) and isinstance(c.func, ast.Attribute) and c.func.attr in ("delete_curve", "pop", "__delitem__")
+                for c in walk_expr_shallow(n.ast))]
+            norms = [n.id for n in cfg.nodes if n.kind == "stmt" and isinstance(n.ast, (ast.Assign, ast.AugAssign)) and "len(" in ast.unparse(n.ast)
+                     and ixp in ast.unparse(n.ast)]
+            for d in dels:
+                if cfg.find_path(d, norms, skip_labels=EXC):
+                    norm = False
         ctx.check(norm, "LF.ROUTE", LF + ".replace_curve_item#index", fi, fi.node,
                   "replace = delete(ix) + insert(ix) with negative positions converted first",
                   "replace_curve_item deletes position ix and inserts at the same ix without normalising a negative ix: "
@@ -241,8 +252,16 @@ def tainted(x, acc=[]):
 '''
 
 
+MEMO_DECORATORS = {"lru_cache", "cache", "cached_property", "memoize", "memoized"}
+
+
 def _global_writes(p, ea, fi):
     out = []
+    for d in getattr(fi.node, "decorator_list", []):
+        dn = d.func if isinstance(d, ast.Call) else d
+        name = dn.attr if isinstance(dn, ast.Attribute) else getattr(dn, "id", "")
+        if name in MEMO_DECORATORS:
+            out.append((d, "is memoised with @%s: results (mutable objects that callers modify) are shared between reads" % name))
     for e in ea.local_effects(fi):
         if e.path[0][0] == "global":
             out.append((e.node, "writes module-level object %s" % fmt_path(e.path)))
